@@ -102,6 +102,7 @@ type World struct {
 	C10     *C10Model
 	C17     *C17Model
 	C14     *C14State
+	C16     *C16Model
 	opIdx   int
 }
 
